@@ -14,6 +14,9 @@ import (
 
 var allDeco = 8
 
+// set by C09 (self-composition squares the number of paths)
+var smallT5 bool
+
 var focusClasses = []int{cMissing, cVal, cBad}
 
 // deeper bounds in the thorough tier
@@ -158,7 +161,11 @@ func buildShape(job string) *shape {
 			return newStruct(nm, []string{"x", "y"}, []Node{newInt(nm+".x", fdeco, 1, classesFor(mode, focusClasses)), newStr(nm+".y", 0, 0, []int{cVal})}, classesFor(mode, []int{cVal, cBad}))
 		}
 		proto := newStruct("proto", []string{"x", "y"}, []Node{newIntDeco("proto.x", fdeco, 1), &StrNode{name: "proto.y", NT: 0, pre: strPre}}, []int{cVal})
-		ss := newSliceStruct("sl", v.Choice("sreq", 2) == 1, 1, classesFor(mode, []int{cMissing, cVal}), 1+v.Tier(), mkEl).withProto(proto)
+		nEl := 1 + v.Tier()
+		if smallT5 && fdeco&dDef != 0 {
+			nEl = 1 // C09 runs every path twice: two elements with defaulting focus nodes exceed the 30 min budget of a job
+		}
+		ss := newSliceStruct("sl", v.Choice("sreq", 2) == 1, 1, classesFor(mode, []int{cMissing, cVal}), nEl, mkEl).withProto(proto)
 		shareDeco(proto, ss.Els)
 		sib := newInt("b", dReq, 1, classesFor(mode, []int{cMissing, cVal}))
 		sh.top = newStruct("top", []string{"lN", "j"}, []Node{ss, sib}, []int{cVal})
